@@ -180,13 +180,19 @@ def check_sequences(run, ncases):
                     res = None      # scribbled on: do not keep it
                 if res is not None and hasattr(res, "dataset") and len(pool) < 5 and not any(res is p for p in pool):
                     pool.append(res)
-                    if name in ("isel_slice", "getitem_slice", "getitem_frequency_slice", "isel", "getitem", "sel", "bandpass", "copy_shallow") and rng.random() < 0.6:
-                        # write into the selection in place: the source (and every other live object) stays as it is
+                    if name in ("isel_slice", "getitem_slice", "getitem_frequency_slice", "isel", "getitem", "sel", "bandpass", "copy_shallow", "flatten") and rng.random() < 0.6:
+                        # write into the selection in place: the source (and every other live object) stays as it is.
+                        # Both documented in-place operations are used: scaling, and filling the missing values (which
+                        # only acts where the selection has NaNs - the pool is generated with missing bins)
                         before2 = [snapshot(p) for p in pool]
                         try:
-                            shp2 = res.shape()
-                            res.multiply(np.full(shp2, 3.0), inplace=True)
-                            run.count("inplace_on_selection")
+                            if rng.random() < 0.5:
+                                res.fillna(-7.0)
+                                run.count("inplace_fillna_on_selection")
+                            else:
+                                shp2 = res.shape()
+                                res.multiply(np.full(shp2, 3.0), inplace=True)
+                                run.count("inplace_on_selection")
                         except Exception:
                             run.count("op_raised_inplace_on_selection")
                         after2 = [snapshot(p) for p in pool]
@@ -276,6 +282,34 @@ def check_concat(run, ncases):
                         if not ok:
                             run.violation("selecting element i of a concatenation does not return the i-th input",
                                           dict(i=i, n=n, var=str(var), getter=getter))
+            # second stage: the selected single spectra (which now carry what they were selected by) are joined again,
+            # in another order, along another new dimension; element j is the j-th spectrum handed in
+            try:
+                singles = [cat.isel(time=i) for i in range(n)]
+                order = list(range(n))
+                rng.shuffle(order)
+                dim2 = rng.choice(["latitude", "longitude"])
+                cat2 = concatenate_spectra([singles[k] for k in order], dim=dim2)
+            except Exception as ex:
+                run.count("chained_concat_raised_" + type(ex).__name__)
+                continue
+            run.case("concat_chained", key=(n, two_d, dim2))
+            if len(cat2) != n:
+                run.violation("chained concatenation of N spectra does not contain N spectra", dict(n=n, got=len(cat2), dim=dim2))
+                continue
+            for j in range(n):
+                one = cat2.isel(**{dim2: j})
+                ref = parts[order[j]]
+                for var in ref.dataset.variables:
+                    if var not in one.dataset.variables:
+                        run.violation("element of a chained concatenation lacks a variable of the input", dict(var=str(var), j=j))
+                        continue
+                    a = np.squeeze(np.asarray(ref.dataset[var].values))
+                    b = np.squeeze(np.asarray(one.dataset[var].values))
+                    ok = a.shape == b.shape and (np.array_equal(a, b, equal_nan=True) if a.dtype.kind == "f" else np.array_equal(a, b))
+                    if not ok:
+                        run.violation("selecting element j of a concatenation of selected spectra does not return the j-th input",
+                                      dict(j=j, n=n, var=str(var), dim=dim2, order=order))
 
 
 def check_flatten(run, ncases):
